@@ -45,6 +45,7 @@ type Obl struct {
 	Site   string // return site (ensures) — part of a finding's identity
 	MetricName, MetricKind, MetricPkg string
 	Try    bool // not claimed: attempted in the thorough tier only
+	RawQuery string // complete SMT script (lemma files)
 	Exec   *Exec
 	// result
 	Status  string // proved refuted unknown covered uncovered
@@ -105,6 +106,8 @@ type Exec struct {
 
 	inlined   map[string]bool
 	byContr   map[string]bool
+	// calleeFrame: captured variables of the closure whose contract is being applied
+	calleeFrame *Frame
 	intrUsed  map[string]bool
 	unspec    map[string]bool
 	specFns   map[string]bool
